@@ -308,7 +308,27 @@ GTProg(nk, tail, j, gv, lf) ==
 GuardTail == {CaseOf("C01/guardtail/" \o nk \o "/" \o tail \o "/" \o j \o "/" \o gv \o "/" \o lf, GTProg(nk, tail, j, gv, lf))
               : nk \in GTNested, tail \in GTTails, j \in GTJumps, gv \in {"1", "7"}, lf \in {"for3", "forcond"}}
 
-All == SelfAssignLegal \cup GuardTail \cup NestLeaf \cup Reeval \cup JumpSites \cup OuterJump \cup TupleCases \cup NotCmp \cup NotOther \cup Arith1 \cup Arith2 \cup ArithVar \cup Arith3 \cup Logic2 \cup LogicNot \cup CmpInt \cup CmpStr \cup CmpBool \cup Mixed \cup StrConcat
+\* ---- strings that LOOK like numbers, booleans or words of the target shells (round 15: the Batch converter folded `"1" + "2"` to 3 at transpile time - both
+\* operand texts parse as integers): concatenation, comparison, switch, compound assignment, argument passing and printing of such values, as literals, through
+\* variables and through itoa
+NumPairs == <<<<"1", "2">>, <<"10", "0">>, <<"007", "1">>, <<"-1", "1">>, <<"08", "09">>, <<"4", "2">>, <<"true", "false">>, <<"on", "off">>, <<"1", "a">>, <<"a", "1">>, <<"", "5">>,
+              <<"0", "0">>, <<"2147483647", "1">>, <<"equ", "1">>, <<"1", "1">>, <<"0x10", "16">>, <<"1e3", "1000">>, <<"+1", "1">>>>
+NumStrProg(p, w) ==
+  LET A == StrL(p[1]) B == StrL(p[2])
+      body == <<Def(<<"a", "b">>, <<A, B>>),
+                PrintS(<<Bin("+", Var("a"), Var("b")), LenE(Bin("+", Var("a"), Var("b")))>>),
+                PrintS(<<Bin("+", A, B), Bin("+", Bin("+", A, B), A)>>),
+                PrintS(<<Bin("+", Itoa(NatLit(4)), B), Bin("+", Var("a"), Itoa(NatLit(7))), Bin("+", Itoa(NatLit(4)), Itoa(NatLit(2)))>>),
+                PrintS(<<CmpE("==", Var("a"), Var("b")), CmpE("!=", Var("a"), Var("b")), CmpE("==", Var("a"), A), CmpE("==", Bin("+", Var("a"), Var("b")), Bin("+", A, B)), CmpE("==", A, B)>>),
+                Switch(Var("a"), <<CaseB(B, <<Print1(StrL("is b"))>>), CaseB(A, <<Print1(StrL("is a"))>>)>>, <<Print1(StrL("neither"))>>, TRUE),
+                Def1("c", Var("a")), Compound("c", "+", Var("b")), Compound("c", "+", B), PrintS(<<Var("c"), LenE(Var("c"))>>),
+                PrintS(<<CallE("cat", <<Var("a"), Var("b")>>), CallE("cat", <<A, B>>), CallE("cat", <<Itoa(NatLit(1)), Itoa(NatLit(2))>>)>>),
+                PrintS(<<StrL("["), Var("a"), StrL("]")>>), PrintS(<<Var("a"), Var("b")>>),
+                If1(CmpE("==", Bin("+", A, B), StrL(p[1] \o p[2])), <<Print1(StrL("concat"))>>)>>
+  IN <<Func("cat", <<Param("x", "string"), Param("y", "string")>>, <<"string">>, <<RetS(<<Bin("+", Var("x"), Var("y"))>>)>>)>>
+     \o (IF w = "top" THEN body ELSE <<Func("run", <<>>, <<>>, body), ExprS(CallE("run", <<>>))>>)
+NumStrCases == {CaseOf("C01/numstr/" \o ToString(i) \o "/" \o w, NumStrProg(NumPairs[i], w)) : i \in 1..Len(NumPairs), w \in {"top", "func"}}
+All == NumStrCases \cup SelfAssignLegal \cup GuardTail \cup NestLeaf \cup Reeval \cup JumpSites \cup OuterJump \cup TupleCases \cup NotCmp \cup NotOther \cup Arith1 \cup Arith2 \cup ArithVar \cup Arith3 \cup Logic2 \cup LogicNot \cup CmpInt \cup CmpStr \cup CmpBool \cup Mixed \cup StrConcat
        \cup Nest1 \cup Nest2 \cup Seq2 \cup Nest3 \cup DefCases \cup CompoundCases \cup IncDecCases \cup PanicAt \cup ItoaCases \cup PrintCases
 ASSUME ndJsonSerialize("fam.ndjson", SetToSeq(All))
 =============================================================================
